@@ -101,6 +101,16 @@ def gen_cases(ctx):
     for sc in (1e-9, 1e-30, 1e-160, 1e9, 1e150):
         v = [float2bits(bits2float(x) * sc) for x in rand_vec(rng, 2, "normalised")]
         mk("measure", 2, v, "C", [0], draw=float2bits(0.4)); mk("measure", 2, v, "X", [], draw=float2bits(0.7))
+    # one-qubit states on which dividing the collapsed vector by its norm leaves a squared norm more than 2 ulp from 1 (found by a
+    # search over 3e6 random one-qubit states on the real crate; measure used to re-validate the renormalised vector with
+    # State::new's tolerance EPSILON * len and report StateVectorNotNormalised): both outcomes, every basis that ends in that collapse
+    ROUNDING_CORPUS = [["bfe14ae64f59e7ee", "3fe51b37d4c506b4", "bfe0b6fd9d2586be", "bf84c2e7fa636d0b"],
+                       ["%016x" % b for b in (13826009751587079016, 4604426431804602867, 4593511900085336671, 4602728369837524411)],
+                       ["%016x" % b for b in (13817666119395214695, 13826177883897385337, 13825600934469450072, 13827851056433665209)],
+                       ["%016x" % b for b in (4603844990688402731, 4604711100772528668, 13813146943182207967, 13821884115867326464)]]
+    for v in ROUNDING_CORPUS:
+        for d in (0.0, 0.999999):
+            mk("measure", 1, v, "C", [0], draw=float2bits(d)); mk("measure", 1, v, "C", [], draw=float2bits(d))
     # argument errors
     for n in (1, 2, 3):
         v = entangled(rng, n, "random")
